@@ -36,11 +36,11 @@ func main() {
 	twice := flag.Bool("twice", false, "run every seed twice and compare hashes (determinism self-test)")
 	states := flag.Bool("states", false, "include the list of abstract cluster state hashes")
 	dump := flag.Bool("dump", false, "print the generated config and plan of -seed and exit")
-	disk := flag.String("disk", "", "disk-only engine for C12 or C13")
+	thorough := flag.Bool("thorough", false, "deeper variant of the profile")
 	flag.Parse()
-	_ = disk
 	if *dump {
 		cfg, plan := harness.Gen(*profile, *start)
+		cfg.Thorough = *thorough
 		if plan == nil {
 			plan = harness.Plan{}
 		}
@@ -92,9 +92,11 @@ func main() {
 		seed := *start + uint64(i)*(*stride)
 		cfg, plan := harness.Gen(*profile, seed)
 		cfg.Trace = *trace
+		cfg.Thorough = *thorough
 		res := harness.Run(cfg, plan)
 		if *twice {
 			cfg2, plan2 := harness.Gen(*profile, seed)
+			cfg2.Thorough = *thorough
 			res2 := harness.Run(cfg2, plan2)
 			if res2.Hash != res.Hash || res2.Steps != res.Steps {
 				res.Infra = fmt.Sprintf("nondeterminism: seed %d gave hash %s/%d steps then %s/%d steps", seed, res.Hash, res.Steps, res2.Hash, res2.Steps)
